@@ -296,7 +296,54 @@ func (c *VCtx) knownAll(st *State, v Val) {
 }
 
 // callbackCall: call of a function value that is not statically known (user callback).
+// ownClosureBehind: the called value is (the content of) a captured variable that, where the closure was
+// created, holds one of this package's own closures - not a user callback.
+func ownClosureBehind(fn *ssa.Function, v ssa.Value) (string, *ssa.Function) {
+	if u, ok := v.(*ssa.UnOp); ok && u.Op == token.MUL {
+		v = u.X
+	}
+	fvar, ok := v.(*ssa.FreeVar)
+	if !ok || fn.Parent() == nil {
+		return "", nil
+	}
+	idx := -1
+	for i, f := range fn.FreeVars {
+		if f == fvar {
+			idx = i
+		}
+	}
+	for _, b := range fn.Parent().Blocks {
+		for _, in := range b.Instrs {
+			mc, ok := in.(*ssa.MakeClosure)
+			if !ok || mc.Fn != fn || idx < 0 || idx >= len(mc.Bindings) {
+				continue
+			}
+			switch bv := mc.Bindings[idx].(type) {
+			case *ssa.MakeClosure:
+				return fvar.Name(), bv.Fn.(*ssa.Function)
+			case *ssa.Alloc:
+				for _, r := range *bv.Referrers() {
+					if s, ok := r.(*ssa.Store); ok && s.Addr == bv {
+						if m2, ok := s.Val.(*ssa.MakeClosure); ok {
+							return fvar.Name(), m2.Fn.(*ssa.Function)
+						}
+					}
+				}
+			case *ssa.FreeVar:
+				// captured from a frame further out
+				if n, g := ownClosureBehind(fn.Parent(), bv); g != nil {
+					return n, g
+				}
+			}
+		}
+	}
+	return "", nil
+}
+
 func (c *VCtx) callbackCall(fr *Frame, st *State, cc *ssa.CallCommon, f *Term, args []Val, rt types.Type) Val {
+	if n, g := ownClosureBehind(fr.fn, cc.Value); g != nil {
+		unsup("call through the captured variable %s, which holds the package's own closure %s, not a user callback: declare 'bind %s = %s'", n, FuncKey(g), n, FuncKey(g))
+	}
 	c.safety(fr, st, "nilfunc", Not(Eq(f, Null)), cc.Pos())
 	for _, a := range args {
 		c.publish(a)
